@@ -453,7 +453,15 @@ mutual
           simpa [Node.uuid] using this
       try simp only [Node.uuid] at hgp
       have hE := mergeEntries_self now tombs root ev C cs path (.group gu gc gt cs) hgp rfl (fun c hc => hc)
-      have hS := mergeSubgroups_self now tombs root ev C cs path (.group gu gc gt cs) hgp rfl (fun c hc => hc) ht.2
+      have hrp : refreshPath root path = path := by
+        rcases hpos with ⟨rfl, _⟩ | ⟨ppath, parent, rfl, hp, hpg, hmem⟩
+        · rfl
+        · have hloc : findLoc root gu = some ppath := by
+            have := findLoc_child ppath root parent _ C.nodup hp hpg hmem
+            simpa [findLoc, Node.uuid] using this
+          unfold refreshPath
+          simp [Node.uuid, hloc]
+      have hS := mergeSubgroups_self now tombs root ev C cs path (.group gu gc gt cs) hgp rfl (fun c hc => hc) ht.2 hrp
       unfold mergeGroup
       rcases hpos with ⟨rfl, hr⟩ | ⟨ppath, parent, rfl, hp, hpg, hmem⟩
       · have hnone : findLoc root gu = none := by
@@ -495,14 +503,14 @@ mutual
 
   theorem mergeSubgroups_self (now : Int) (tombs : List Tomb) (root : Node) (ev : List Event) (C : SelfCtx root tombs) :
       ∀ (cs : List Node) (path : List Nat) (g : Node), getPath root path = some g → g.isGroup = true →
-        (∀ c ∈ cs, c ∈ g.children) → timedL cs →
+        (∀ c ∈ cs, c ∈ g.children) → timedL cs → refreshPath root path = path →
         mergeSubgroups now tombs ⟨root, ev⟩ path false cs = .ok ⟨root, ev⟩
-    | [], _, _, _, _, _, _ => by simp [mergeSubgroups]
-    | .entry _ :: rest, path, g, hg, hgg, hsub, ht => by
+    | [], _, _, _, _, _, _, _ => by simp [mergeSubgroups]
+    | .entry _ :: rest, path, g, hg, hgg, hsub, ht, hrp => by
       unfold mergeSubgroups
       simp only [timedL] at ht
-      exact mergeSubgroups_self now tombs root ev C rest path g hg hgg (fun c hc => hsub c (List.mem_cons_of_mem _ hc)) ht.2
-    | .group ou oc ot ocs :: rest, path, g, hg, hgg, hsub, ht => by
+      exact mergeSubgroups_self now tombs root ev C rest path g hg hgg (fun c hc => hsub c (List.mem_cons_of_mem _ hc)) ht.2 hrp
+    | .group ou oc ot ocs :: rest, path, g, hg, hgg, hsub, ht, hrp => by
       simp only [timedL] at ht
       have hmem : Node.group ou oc ot ocs ∈ g.children := hsub _ (List.mem_cons_self ..)
       have hin : ou ∈ uuidsL root.children := by
@@ -525,7 +533,8 @@ mutual
       rw [mergeGroup_self now tombs root ev C (.group ou oc ot ocs) (path ++ [ou]) ht.1
         (Or.inr ⟨path, g, by simp [Node.uuid], hg, hgg, hmem⟩)]
       simp only
-      exact mergeSubgroups_self now tombs root ev C rest path g hg hgg (fun c hc => hsub c (List.mem_cons_of_mem _ hc)) ht.2
+      rw [hrp]
+      exact mergeSubgroups_self now tombs root ev C rest path g hg hgg (fun c hc => hsub c (List.mem_cons_of_mem _ hc)) ht.2 hrp
 end
 
 
